@@ -456,9 +456,6 @@ class TrimWhitespaces(FullAstVisitor):
 
     def visit_FunctionNode(self, node: mparser.FunctionNode) -> None:
         if node.func_name.value == 'files':
-            if self.config.sort_files:
-                self.sort_arguments(node.args)
-
             while len(node.args.arguments) == 1 and not node.args.kwargs:
                 arg = node.args.arguments[0]
                 if not isinstance(arg, mparser.ArrayNode):
@@ -469,6 +466,9 @@ class TrimWhitespaces(FullAstVisitor):
                 if any(n.whitespaces and n.whitespaces.value.strip() for n in dropped):
                     break
                 node.args = arg.args
+
+            if self.config.sort_files:
+                self.sort_arguments(node.args)
 
         super().visit_FunctionNode(node)
         self.move_whitespaces(node.rpar, node)
